@@ -9,7 +9,7 @@
    icmp / ONE / ZERO / UMAX, Cast.to_bits / from_bits, Convert.from_digits. *)
 From Bnum Require Import Base Prim.
 From Bnum.Model Require Import DigitPrims LoopPrims Core Imp ImpRand.
-From Bnum.Model Require AddSub Mul Div Bits Shift Cast Convert Random.
+From Bnum.Model Require AddSub Mul Div Bits Shift Cast Convert Endian Random.
 From Bnum.Generated Require Import DigitGen.
 
 Module RandGen.
@@ -285,5 +285,35 @@ Definition I_sample_single (dbg : bool) (w N : Z) (fuel : nat) (low_b : list Z) 
   ) else (
     Panicked (* assert! *)
   ).
+
+(* src/random.rs: fill_impl!($BUint<N>), fn try_fill *)
+Definition U_try_fill (w N : Z) (fuel : nat) (self : list (list Z)) (rng : Random.stream) : res (drawn (list (list Z))) :=
+  if ((Z.of_nat (length self)) >? 0) then (
+    draw self rng <- rng_fill_raw w N self ((Z.of_nat (length self)) * (size_of_bnum w N)) rng ;;
+    let self := (map Endian.U_to_le self) in
+    Done (Some (self, rng))
+  ) else (
+    Done (Some (self, rng))
+  ).
+
+(* src/random.rs: fill_impl!($BInt<N>), fn try_fill *)
+Definition I_try_fill (w N : Z) (fuel : nat) (self : list (list Z)) (rng : Random.stream) : res (drawn (list (list Z))) :=
+  if ((Z.of_nat (length self)) >? 0) then (
+    draw self rng <- rng_fill_raw w N self ((Z.of_nat (length self)) * (size_of_bnum w N)) rng ;;
+    let self := (map Endian.I_to_le self) in
+    Done (Some (self, rng))
+  ) else (
+    Done (Some (self, rng))
+  ).
+
+(* src/random.rs: fn try_fill_slice at T = $BUint<N> (text pattern-checked: `&mut [T]` re-read as `&mut Slice<T>`, then Fill::try_fill) *)
+Definition U_try_fill_slice (w N : Z) (fuel : nat) (slice : list (list Z)) (rng : Random.stream) : res (drawn (list (list Z))) :=
+  draw slice rng <- U_try_fill w N fuel slice rng ;;
+  Done (Some (slice, rng)).
+
+(* src/random.rs: fn try_fill_slice at T = $BInt<N> (text pattern-checked: `&mut [T]` re-read as `&mut Slice<T>`, then Fill::try_fill) *)
+Definition I_try_fill_slice (w N : Z) (fuel : nat) (slice : list (list Z)) (rng : Random.stream) : res (drawn (list (list Z))) :=
+  draw slice rng <- I_try_fill w N fuel slice rng ;;
+  Done (Some (slice, rng)).
 
 End RandGen.
